@@ -86,7 +86,7 @@ func (array *Array) Size() int {
 
 // Next returns a next message.
 func (array *Array) Next() (*Message, error) {
-	if array.Size() <= array.index {
+	if array == nil || array.Size() <= array.index {
 		return nil, nil
 	}
 	msg := array.msgs[array.index]
